@@ -53,7 +53,7 @@ def run_model(ops, scratch, tag="m", timeout=300):
             f.write(json.dumps(op, ensure_ascii=False) + "\n")
     try:
         r = subprocess.run([common.INKMODEL, "play", path], capture_output=True, text=True, timeout=timeout)
-        lines = r.stdout.splitlines()
+        lines = r.stdout.split("\n")
     except subprocess.TimeoutExpired:
         lines = []
     os.remove(path)
@@ -68,7 +68,7 @@ def run_rt_script(ops, scratch, features=(), release=False, tag="r", timeout=300
     try:
         r = subprocess.run([common.rt_bin(features, release), "play", path], capture_output=True, text=True,
                            timeout=timeout)
-        lines = r.stdout.splitlines()
+        lines = r.stdout.split("\n")
     except subprocess.TimeoutExpired:
         lines = []
     os.remove(path)
